@@ -4,6 +4,7 @@ import (
 	"fmt"
 	"math"
 	"os"
+	"path/filepath"
 	"sort"
 	"strings"
 	"sync"
@@ -142,6 +143,49 @@ func (st *state) feedOp(toks []string) string {
 			fb.mu.Unlock()
 		})
 		return "ok"
+	case "watchp": // a second watcher with its own patterns (C20: a watcher only receives records for keys matching its patterns)
+		in.feedP = &feedBuf{}
+		in.patterns = nil
+		for _, a := range mustArgs(toks[1:]) {
+			in.patterns = append(in.patterns, string(a))
+		}
+		fb := in.feedP
+		in.n.WatchKey(in.patterns, func(op patch.Op) {
+			fb.mu.Lock()
+			fb.ops = append(fb.ops, op)
+			fb.mu.Unlock()
+		})
+		return "ok"
+	case "feedp": // what the pattern watcher got must be exactly the matching records of the `*` watcher, in order
+		if in.feed == nil || in.feedP == nil {
+			return "bad-op"
+		}
+		in.feed.mu.Lock()
+		all := in.feed.ops
+		in.feed.ops, in.feed.bad = nil, nil
+		in.feed.mu.Unlock()
+		in.feedP.mu.Lock()
+		got := in.feedP.ops
+		in.feedP.ops = nil
+		in.feedP.mu.Unlock()
+		var want []string
+		for _, op := range all {
+			for _, pat := range in.patterns {
+				if ok, _ := filepath.Match(pat, op.Data.GetKey()); ok {
+					want = append(want, renderOp(op))
+					break
+				}
+			}
+		}
+		gotR := make([]string, len(got))
+		for i, op := range got {
+			gotR[i] = renderOp(op)
+		}
+		verdict := "ok"
+		if strings.Join(want, " ") != strings.Join(gotR, " ") {
+			verdict = "MISMATCH want=[" + strings.Join(want, " ") + "] got=[" + strings.Join(gotR, " ") + "]"
+		}
+		return fmt.Sprintf("feedp all=%d matched=%d %s", len(all), len(gotR), verdict)
 	case "feed":
 		if in.feed == nil {
 			return "feed"
